@@ -5,7 +5,7 @@ from props import play_common as pc
 TARGETS = ['Props/C05.vo']
 ASSUMPTIONS = ['drivers/play.py records accept/raise, a deepcopy-free snapshot comparison of hands/used_cards/public state around each attempt, and the final hands / used_cards / history']
 T5 = 'nat * nat * list (list nat) * list (nat * nat) * list (bool * bool * proj) * (list (list nat) * list nat * list (nat * list nat))'
-T11 = 'nat * nat * list (list nat) * list (nat * nat) * list (list (bool * proj) * (list nat * option (list nat) * list (nat * list nat)))'
+T11 = 'c11case'
 
 
 def run(ctx):
@@ -30,8 +30,8 @@ def run(ctx):
     r11 = pc.run_shards('C05', 'oracle_obs', pc.IMP_O, T11, 'c11_case k', l11, 10)
     for k, o, code in zip(inp['hands'], out['hands'], r11):
         if code:
-            viol.append(dict(kind='observer hand bookkeeping wrong', input=dict(bid=k['bid'], declarer=k['decl'], deal=k['deal'], ops=o['acc_ops'], code=code),
-                             observed=o['observers'][(code // 2000) - 1][1], expected='own hand and dummy hand = deal minus the cards played from them',
+            viol.append(dict(kind='observer hand bookkeeping wrong', input=dict(bid=k['bid'], declarer=k['decl'], deal=k['deal'], observer='NESW'[(code // 2000) - 1], attempts=o['observers'][(code // 2000) - 1][0][:(code % 2000) if code % 2000 < 998 else None]),
+                             observed=(o['observers'][(code // 2000) - 1][1][(code % 2000) - 1] if 0 < code % 2000 < 998 else o['observers'][(code // 2000) - 1][2]), expected='own hand and dummy hand = deal minus the cards played from them',
                              how_found='ObservedPlayingPhase fed the accepted plays', theorem_or_tie='C05 (observer) / C11_observer_agrees', signature=dict(kind='c05 observer')))
     viol.sort(key=lambda v: len(str(v['input'])))
     try:
